@@ -69,7 +69,7 @@ def token_spans(eng, text):
 
     p = eng._parsers.get((False, False))
     if p is None:
-        eng.loads("MAP END")
+        eng.loads("MAP END", expand_includes=False)
         p = eng._parsers[(False, False)]
     ip = p.lalr.parse_interactive(text)
     spans = []
@@ -161,7 +161,10 @@ def run(ctx):
             continue
         try:
             spans = token_spans(eng, text)
-        except Exception:
+        except Exception as ex:
+            import lark
+            if not isinstance(ex, lark.exceptions.LarkError):
+                res.inconclusive_because(f"token_spans failed with {type(ex).__name__}: {ex} (harness error, not a lexing error)")
             res.count("corpus_files_not_lexed")
             continue
         pref = core.plain(ref)
